@@ -135,6 +135,32 @@ func ccJobs(r *Rand, n int) []ccJob {
 			}},
 		)
 	}
+	// static-dictionary references to the same word under different transforms, identity first: a
+	// transform that rewrites the shared dictionary in place changes what the identity job gives later
+	dict := brotli.VerifStaticDict()
+	off := 0
+	for L := 4; L <= 24; L++ {
+		nw := 1 << brNDBits[L]
+		if L == 4 || L == 7 || L == 12 {
+			for q := 0; q < 2; q++ {
+				idx := r.Intn(nw)
+				word := dict[off+idx*L : off+(idx+1)*L]
+				for _, t := range []int{0, 44, 9, 68, 4, 0} {
+					n := len(brotli.VerifTransformWord(word, t))
+					if n == 0 {
+						continue
+					}
+					s := dictStream(L, idx, t, n)
+					jobs = append(jobs, ccJob{fmt.Sprintf("brotli-dict-L%d-t%d", L, t), func() string {
+						zr, _ := brotli.NewReader(bytes.NewReader(s), nil)
+						b, err := io.ReadAll(zr)
+						return sum(b, err)
+					}})
+				}
+			}
+		}
+		off += nw * L
+	}
 	return jobs
 }
 
@@ -155,6 +181,8 @@ func execCC(o *Out, id, line string) {
 	for i, j := range jobs {
 		if got := j.run(); got != solo[i] {
 			o.Violate("C14", fmt.Sprintf("job %s is not deterministic when run alone: %s vs %s", j.name, got, solo[i]), "solo-nondeterministic", line)
+			// between the two runs only other, independent instances were used
+			o.Violate("C19", fmt.Sprintf("job %s gives %s, but gave %s before other independent instances had run", j.name, got, solo[i]), "sequential-interference", line)
 			return
 		}
 	}
